@@ -309,6 +309,14 @@ class TokenTarget(object):
     def ow(self, token):
         self._count(token)
 
+    @server.oneway
+    def ow_blob(self, blob):
+        self._count(blob.info)          # the argument stays serialized (client.SerializedBlob)
+
+    def echo_blob(self, blob):
+        self._count(blob.info)
+        return blob.info
+
     @property
     def attr(self):
         self._count("attr")
